@@ -81,10 +81,14 @@ def gen(rng, tier):
     steps = [{"op": "create", "feats": [feat(rng, ids[i] if i < len(ids) and rng.random() < 0.7 else None, types) for i in range(n0)],
               "form": rng.choice(["path", "list", "gen"])}]
     for _ in range(rng.choice([0, 1, 1, 2, 3])):
-        k = rng.choice(["update", "update", "delete", "reopen", "restart"])
+        k = rng.choice(["update", "update", "delete", "reopen", "restart", "relate"])
         if k == "update":
             steps.append({"op": "update", "feats": [feat(rng, rng.choice(ids), types) for _ in range(rng.randint(1, 3))],
                           "strategy": rng.choice(["replace", "replace", "create_unique", "merge"]), "form": rng.choice(["list", "gen", "path"])})
+        elif k == "relate":
+            # add_relation whose child_func hands the child back with another featuretype / seqid (a write through _update)
+            steps.append({"op": "relate", "pick": [rng.random(), rng.random()], "what": rng.choice(["retype", "reseq"]),
+                          "to": rng.choice(["retyped", "exon", "Chr9", "chrR"])})
         elif k == "delete":
             steps.append({"op": "delete", "ids": rng.sample(ids + ["gene_1", "exon_1"], rng.choice([1, 2]))})
         else:
@@ -356,6 +360,15 @@ def run(case):
                                         "kw": {"merge_strategy": st["strategy"], "make_backup": False}})
                     if st["strategy"] == "replace":
                         probes["replace_in_history"] = 1
+                elif k == "relate" and alive and len(model.order) >= 2 and not stale[0]:
+                    pa = model.order[int(st["pick"][0] * len(model.order)) % len(model.order)]
+                    ch = model.order[int(st["pick"][1] * len(model.order)) % len(model.order)]
+                    if pa == ch or (pa, ch, 1) in model.rel:
+                        continue
+                    model.rel.add((pa, ch, 1))
+                    model.feats[ch]["cols"][2 if st["what"] == "retype" else 0] = st["to"]
+                    r = call(node, {"op": "add_relation", "h": "h", "parent": pa, "child": ch, "level": 1, "child_func": st["what"], "to": st["to"]})
+                    probes["add_relation_child_func_changes_type_or_seqid"] = 1
                 elif k == "delete" and alive and st.get("deferred") and st.get("via") != "other_process" and not stale[0] and model.order:
                     # result obtained, features deleted (among them the first stored one), result read: what is read must be the
                     # answer of ONE state of the database - the one at the call or the one at the reading - never a blend
